@@ -212,6 +212,14 @@ class Program(object):
 
             param = command.inputs[argument.name]
 
+            # Nested lists are serialised element by element, like the top-level list
+            if isinstance(value, ListArgument):
+                value = value.value
+            if isinstance(value, (list, tuple)):
+                return "[{}]".format(
+                    ", ".join(serialize_value(x, argument, command) for x in value)
+                )
+
             if isinstance(param, ResultParameter) or (
                 isinstance(param, ListParameter)
                 and isinstance(param.value_type, ResultParameter)
